@@ -37,8 +37,7 @@ def lexer_target(data):
         if oracle in ("C10", "C05"):
             raise AssertionError("C10 round trip: " + res["why"])
     elif oracle == "C09" and (res["positions_ok"] is False or res["bad_ok"] is False):
-        if "\\\t" not in text:   # open finding: tab after a backslash inside a literal
-            raise AssertionError("C09 positions: %r" % (res["first_bad"],))
+        raise AssertionError("C09 positions: %r" % (res["first_bad"],))
 
 
 REG = Registry()
